@@ -23,7 +23,7 @@ func showFileRes(r *pgdump.FileChecksumResult) string {
 	return fmt.Sprintf("%d:%d:%d:%d:[%s]", r.TotalBlocks, r.ValidBlocks, r.InvalidBlocks, r.ZeroBlocks, strings.Join(errs, ","))
 }
 
-// buildTree creates the flat description ("f:<path>=<hexrle>", "d:<path>") under dir
+// buildTree creates the flat description ("f:<path>=<hexrle>", "d:<path>", "l:<path>=<target relative to dir>") under dir
 func buildTree(dir string, entries []string) {
 	for _, a := range entries {
 		switch {
@@ -34,6 +34,15 @@ func buildTree(dir string, entries []string) {
 		case strings.HasPrefix(a, "f:"):
 			eq := strings.IndexByte(a, '=')
 			writeFile(filepath.Join(dir, a[2:eq]), unhex(a[eq+1:]))
+		case strings.HasPrefix(a, "l:"):
+			eq := strings.IndexByte(a, '=')
+			p := filepath.Join(dir, a[2:eq])
+			if err := os.MkdirAll(filepath.Dir(p), 0o755); err != nil {
+				panic("harness: " + err.Error())
+			}
+			if err := os.Symlink(filepath.Join(dir, a[eq+1:]), p); err != nil {
+				panic("harness: " + err.Error())
+			}
 		}
 	}
 }
@@ -42,6 +51,16 @@ func init() {
 	// cksumfile: args = segment number, data
 	core.Register("cksumfile", func(args []string) string {
 		return showFileRes(pgdump.VerifyFileChecksums(unhex(args[1]), uint32(core.Atoi(args[0]))))
+	})
+
+	// pgcksum: args = block number, page -> "<valid>:<stored checksum>" of VerifyPageChecksum
+	core.Register("pgcksum", func(args []string) string {
+		r := pgdump.VerifyPageChecksum(unhex(args[1]), uint32(core.Atoi(args[0])))
+		v := 0
+		if r.Valid {
+			v = 1
+		}
+		return fmt.Sprintf("%d:%d", v, r.StoredChecksum)
 	})
 
 	// cksumdir: args = flat entries of the data directory
@@ -57,16 +76,16 @@ func init() {
 		var files []kv
 		for i := range res.Files {
 			f := &res.Files[i]
-			rel, rerr := filepath.Rel(filepath.Join(dir, "base"), f.Path)
+			// the path of a visited file relative to the data directory: global/<file>, base/<db>/<file>,
+			// pg_tblspc/<spc>/<version dir>/<db>/<file>
+			rel, rerr := filepath.Rel(dir, f.Path)
 			if rerr != nil {
 				rel = "?/" + f.Path
 			}
-			parts := strings.SplitN(rel, string(filepath.Separator), 2)
-			if len(parts) != 2 {
-				parts = []string{"?", rel}
-			}
-			files = append(files, kv{parts[0], parts[1], rel + "," + showFileRes(f)})
+			rel = filepath.ToSlash(rel)
+			files = append(files, kv{filepath.ToSlash(filepath.Dir(rel)), filepath.Base(rel), rel + "," + showFileRes(f)})
 		}
+		// the order of the listed files is not part of the property (PostgreSQL's own order is readdir order)
 		sort.Slice(files, func(i, j int) bool {
 			if files[i].db != files[j].db {
 				return files[i].db < files[j].db
